@@ -35,9 +35,14 @@ MANIFEST = dict(
          'leaves the namespace components alone, witness); C11_children_enumerated_in_name_order, '
          'C11_children_order_independent_of_set_order. FILE SYSTEM: c11_targets = the output paths generate_all writes (derived from '
          'get_all_types / get_all_datatypes; exported to C12): C11_written_paths_are_type_and_namespace_files, '
-         'C11_written_paths_inside_outdir (every written path = outdir ++ safe components), c11_targets_distinct[_types_only] '
-         '(pairwise distinct; type file never a namespace file) with c11_targets_distinct_refuted for a namespace-file stem equal to a '
-         'type file stem (known finding F-NS-STEM-COLLIDE, reproduced on nnvg). REAL STROPPERS (C09 StropInst, identifier type path, '
+         'C11_written_paths_inside_outdir (every written path = outdir ++ safe components), '
+         'C11_written_paths_inside_outdir_every_stem and c11_targets_distinct[_either/_types_only]: for EVERY namespace-file stem '
+         'string (the model takes the stem through pathlib: separators, "..", absolute, empty) on every run of build_namespace_tree '
+         'that does not raise (build_checked, instantiated with the regenerated facts pin_c11path_stem_validated / '
+         'pin_c11tree_stem_check: which pinned shape /repo has); while Namespace.__init__ does not validate the stem the premise '
+         'stem_valid remains and C11_written_paths_inside_outdir_refuted gives the witnesses "/x", "../../../e" (known finding '
+         'F-NS-STEM-PATH, reproduced on nnvg; fix: design_notes/C11_stem_validate_fix.patch). C11_py_reference_path_partial (Python '
+         'package/module reference = directory chain when the scanned id types agree with "path"). REAL STROPPERS (C09 StropInst, identifier type path, '
          'all three languages, all DSDL names): C11_real_names_ident_like, C11_real_written_paths_inside_outdir (no stropping '
          'hypothesis left), C11_real_paths_equal_iff_fold (injectivity modulo the folding relation, exactly), '
          'C11_real_fold_is_equality_on_clean, C11_real_path_injective_on_clean, C11_real_fold_witness (ns.class.T / ns._class.T -> one '
@@ -55,7 +60,10 @@ MANIFEST = dict(
          'names sampled from every reserved list and pattern of every identifier type of the language configuration; folded sibling '
          'namespaces; extension / stem / stropping overrides; five spellings of the output directory) and are compared on node set, '
          'links, enumerations, lookup from every node, path map; the independent property oracle additionally checks files on disk, '
-         'type file inside its namespace folder, and include paths of a type referenced from another root namespace.',
+         'type file inside its namespace folder, include paths (c, cpp) / filter_imports, filter_full_reference_name and import lines (py) of a '
+         'type referenced from another root namespace; the COMPLETE set of files created below the case directory (parent of the sandbox '
+         'that is the parent of the output directory) is compared, for runs with support files against type/namespace files + the files of '
+         'a support-only reference run. html/js are not exercised.',
     note='Trusted: Coq kernel; the hand model Gen/Namespace.v for the pinned shape of the code (shape pins compare normalised ASTs: any '
          'edit other than comments/docstrings/annotations/local renames fails closed and is then judged by the falsifier); '
          'namespaces as component lists instead of dot-joined strings; pathlib (the model receives PurePath(outdir).parts and '
@@ -505,6 +513,18 @@ def oracle_diff(r: dict, file_fold: bool) -> typing.List[str]:
         p = '/'.join(o['paths'][ref][n_out:])
         if not any(x in ('<%s>' % p, '"%s"' % p) for x in r['user_includes']) and r['lang'] != 'py':
             out.append('include of %r from another root namespace: %r lacks %r' % (ref, r['user_includes'], p))
+        if r['lang'] == 'py' and 'user_py_imports' in r:
+            # same relative location when merely referenced, Python flavour: the imported package is the directory chain of the
+            # type file and the full reference name is its module path + class name (file stem)
+            rel = o['paths'][ref][n_out:]
+            pkg = '.'.join(rel[:-1])
+            stem_ = rel[-1][:-len(r['ext'])] if r['ext'] and rel[-1].endswith(r['ext']) else rel[-1]
+            if pkg not in r['user_py_imports']:
+                out.append('py filter_imports of a user of %r = %r lacks the package %r of the type file' % (ref, r['user_py_imports'], pkg))
+            if r['user_py_full_reference'] != pkg + '.' + stem_:
+                out.append('py filter_full_reference_name(%r) = %r, expected %r' % (ref, r['user_py_full_reference'], pkg + '.' + stem_))
+            if 'user_file_text_includes' in r and not any(pkg in l for l in r['user_file_text_includes']):
+                out.append('generated py user of %r does not import %r: %r' % (ref, pkg, r['user_file_text_includes'][:6]))
         if '/'.join(r['user_dep_make_path']) != p:
             out.append('make_path of referenced %r = %r, expected %r' % (ref, r['user_dep_make_path'], p))
         if 'user_file_text_includes' in r and r['lang'] != 'py':
@@ -759,12 +779,17 @@ def judge(case: dict, r: dict, kf_live: bool, models: typing.Optional[typing.Lis
             bad = [d for d in diffs if d]
             if bad:
                 v['model'] = bad[0]
+    if od and KF_PATH_LIVE and not stem_valid(r['stem']) and models is None:
+        v['kf_path'] = True      # shrinking / replay without the model: the trigger alone
+        od = []
     if od and KF_PATH_LIVE and not stem_valid(r['stem']) and models is not None and not v['model']:
         # known finding F-NS-STEM-PATH: trigger = stem is not a plain file name; the model (general ns_path, no validation) reproduces
         # the tree and every path; the files on disk must then be exactly the model's paths
         m = models[-1]
         seq = m['all_seq'] if r.get('generate_namespace_types') else [('T',) + x for x in m['dt_seq']]
         exp = {rel_to_sandbox(x[-1], r['sandbox']) for x in seq}
+        if r.get('with_support'):
+            exp |= set(r.get('support_files', []))
         if 'new_files' in r and set(r['new_files']) != exp:
             od = ['files on disk differ from the quirk-faithful model: missing %r, unexpected %r'
                   % (sorted(exp - set(r['new_files'])), sorted(set(r['new_files']) - exp))]
@@ -919,6 +944,7 @@ def main(chk: core.Check, replay: typing.Optional[str] = None) -> int:
             stats['with_node_of_several_children_order_compared'] += any(len(n['children']) > 1 for n in r['nodes'])
             stats['with_name_where_id_type_any_differs_from_path'] += any(r.get('strop_any', {}).get(a, b) != b for a, b in r['strop'].items())
             stats['with_several_versions'] += multi
+            stats['py_import_path_checked'] += 'user_py_imports' in r
             stats['max_depth'] = max(stats['max_depth'], max(len(k) for k in nodes))
             stats['files_checked_on_disk'] += len(r.get('new_files', []))
             stats['lookups_compared'] += len(r['find'])
